@@ -311,11 +311,15 @@ VECTORS = [
     ("harmonic.centers", _XY + "harmonic {\n  name r\n  colvars x y\n  centers {V}\n  forceConstant 1.0\n}\n", True, "any"),
     ("harmonic.targetCenters", _XY + "harmonic {\n  name r\n  colvars x y\n  centers 1 1\n  forceConstant 1.0\n  targetCenters {V}\n  targetNumSteps 4\n}\n", False, "any"),
     ("abf.maxForce", _XY + "abf {\n  name a\n  colvars x y\n  fullSamples 2\n  maxForce {V}\n}\n", False, "nonneg"),
-    ("meta.gaussianSigmas", _XY + "metadynamics {\n  name m\n  colvars x y\n  hillWeight 0.1\n  gaussianSigmas {V}\n  newHillFrequency 2\n}\n", False, "any"),
-    ("opes.gaussianSigma", _XY + "opes_metad {\n  name o\n  colvars x y\n  newHillFrequency 2\n  barrier 10\n  gaussianSigma {V}\n}\n", True, "any"),
+    ("meta.gaussianSigmas", _XY + "metadynamics {\n  name m\n  colvars x y\n  hillWeight 0.1\n  gaussianSigmas {V}\n  newHillFrequency 2\n}\n", False, "pos"),
+    ("opes.gaussianSigma", _XY + "opes_metad {\n  name o\n  colvars x y\n  newHillFrequency 2\n  barrier 10\n  gaussianSigma {V}\n}\n", True, "pos"),
     ("walls.upperWalls", _XY + "harmonicWalls {\n  name w\n  colvars x y\n  upperWalls {V}\n  forceConstant 1.0\n}\n", False, "any"),
 ]
-VECTOR_VALUES = ["1", "1 2", "1 2 3", "1 x", "x 1", "nan 2", "", "0.5 0.25", "1 2abc", "1e300 1", "3 1e-300"]
+# three variables, the odd element in the middle / at the end / one too many or too few
+_XYZ = _XY + cv("z", 3, GRIDCV, "    oneSiteTotalForce on\n")
+VECTORS3 = [(l + "/3", t.replace(_XY, _XYZ).replace("colvars x y", "colvars x y z").replace("centers 1 1\n", "centers 1 1 1\n"), p, e) for l, t, p, e in VECTORS]
+VECTOR3_VALUES = ["1 2 3", "1 x 3", "1 2 x", "1 2", "1 2 3 4", "1 nan 3", "1 -1 3", "1 2 -1", "0.5 0.25 0.125", "1", "1 2 3abc"]
+VECTOR_VALUES = ["0 1", "1 0", "1", "1 2", "1 2 3", "1 x", "x 1", "nan 2", "", "0.5 0.25", "1 2abc", "1e300 1", "3 1e-300"]
 
 
 # ------------------------------------------------------------------------------------------------
@@ -449,5 +453,5 @@ VALIDATE2 = (
 
 # histogram custom grid on two variables: list lengths of width / boundaries
 VECTORS += [
-    ("histgrid.width", _XY + "histogram {\n  name h\n  colvars x y\n  histogramGrid {\n    width {V}\n    lowerBoundary 0 0\n    upperBoundary 4 4\n  }\n}\n", True, "any"),
+    ("histgrid.width", _XY + "histogram {\n  name h\n  colvars x y\n  histogramGrid {\n    width {V}\n    lowerBoundary 0 0\n    upperBoundary 4 4\n  }\n}\n", True, "pos"),
 ]
